@@ -233,6 +233,37 @@ def find_prelude(mod, master, tier, before, case, sig, deadline):
     return _ddmin_list(found, test)
 
 
+def _log_after(mod, prelude_cases, case):
+    out = _execute_with_prelude(mod, prelude_cases, copy.deepcopy(case), True)
+    return {'digest': out['digest'], 'log': out.get('log', []), 'violations': out['violations']}
+
+
+def differs_after(mod, prelude_cases, case, alone_digest):
+    st, r = in_clean_child(_log_after, mod, prelude_cases, case, timeout=600)
+    return st == 'ok' and r['digest'] != alone_digest
+
+
+def find_cross_execution_dependence(mod, master, tier, seq_runs, run, deadline):
+    """`run` gives one outcome alone and another after the runs that preceded it in the self-test sequence,
+    although it is deterministic in isolation: its results depend on what the process executed before.
+    Returns (prelude cases, case, alone, after) with a ddmin-reduced prelude, or None."""
+    case = _gen_case(mod, master, tier, run)
+    st, alone = in_clean_child(_log_after, mod, [], case, timeout=600)
+    if st != 'ok':
+        return None
+    before = [r for r in seq_runs[:seq_runs.index(run)]]
+    pre = [_gen_case(mod, master, tier, r) for r in before]
+    if not pre or not differs_after(mod, pre, case, alone['digest']):
+        return None
+    def test(sub):
+        return time.time() < deadline and differs_after(mod, sub, case, alone['digest'])
+    pre = _ddmin_list(pre, test)
+    st, after = in_clean_child(_log_after, mod, pre, case, timeout=600)
+    if st != 'ok' or after['digest'] == alone['digest']:
+        return None
+    return pre, case, alone, after
+
+
 def fails_with(mod, case, sig):
     """Execute a candidate in a clean child; true iff it shows a violation of the same class."""
     st, out = in_clean_child(_execute_case, mod, case, False)
@@ -362,6 +393,16 @@ def replay_file(path, quiet=False):
         doc = json.load(f)
     core.bootstrap()
     mod = _load_module(doc['property'])
+    if doc.get('kind') == 'cross_execution':
+        # reproduced iff the case alone and the case after the prelude give the recorded, different outcomes
+        st1, alone = in_clean_child(_log_after, mod, [], doc['case'])
+        st2, after = in_clean_child(_log_after, mod, doc['prelude'], doc['case'])
+        ok_ = (st1 == 'ok' and st2 == 'ok' and alone['digest'] == doc['digest_alone'] and after['digest'] == doc['digest'])
+        differ = st1 == 'ok' and st2 == 'ok' and alone['digest'] != after['digest']
+        if not quiet:
+            print(f'replay {path}: outcome alone vs after prelude differ={differ}; recorded digests reproduced={ok_}')
+        out = {'violations': [doc['violation']] if differ else [], 'digest': after['digest'] if st2 == 'ok' else None}
+        return (ok_ and differ), doc, out
     out = _execute_with_prelude(mod, doc.get('prelude') or [], doc['case'], True)
     core.reset_process_state()
     same_class = any(v['sig'] == doc['violation']['sig'] for v in out['violations'])
@@ -570,9 +611,45 @@ def run_batch(prop, tier, master, nruns, workers, wall_cap_s, selftest_n):
             print(f'NOTE property={prop}: run outcomes depend on their position in the batch (state carried from one '
                   f'execution to the next inside a process) - consistent with the violation(s) above; {core.jdump(st)}')
         else:
-            print(f'HARNESS-NONDETERMINISM property={prop} runs depend on batch position but no violation reproduces in '
-                  f'isolation: {core.jdump(st)}')
-            return EXIT_HARNESS
+            found = None
+            if getattr(mod, 'CROSS_EXECUTION_IS_VIOLATION', False):
+                for r_ in st.get('position_dependent_runs', [])[:3]:
+                    found = find_cross_execution_dependence(mod, master, tier, st_runs, r_, time.time() + 150)
+                    if found:
+                        break
+            if not found:
+                print(f'HARNESS-NONDETERMINISM property={prop} runs depend on batch position but no violation reproduces in '
+                      f'isolation: {core.jdump(st)}')
+                return EXIT_HARNESS
+            pre, case_, alone, after = found
+            first = next((i for i, (x, y) in enumerate(zip(alone['log'], after['log'])) if x != y), None)
+            sig = f'{prop}:cross-execution-dependence'
+            v = {'oracle': 'cross-execution-dependence', 'sig': sig,
+                 'what': 'every operation of this case agrees with its fresh reference both times, yet the same case gives different '
+                         'results alone and after the prelude cases were executed in the same process: results depend on earlier '
+                         'executions (state kept at module or class level)',
+                 'first_differing_event': {'alone': alone['log'][first] if first is not None else None,
+                                           'after_prelude': after['log'][first] if first is not None else None}}
+            os.makedirs(REPLAY_DIR, exist_ok=True)
+            path = os.path.join(REPLAY_DIR, f'{prop}-{master}-{case_.get("run")}-{core.digest(sig)[:6]}.json')
+            with open(path, 'w') as f:
+                json.dump({'property': prop, 'kind': 'cross_execution', 'seed': master, 'run': case_.get('run'), 'tier': tier,
+                           'violation': v, 'digest': after['digest'], 'digest_alone': alone['digest'], 'case': case_,
+                           'prelude': pre, 'log': after['log'][-120:], 'log_alone': alone['log'][-120:],
+                           'how_to_replay': f'/venv/bin/python /verif/run_check.py --replay <this file>'},
+                          f, indent=1, sort_keys=True, default=str)
+            repro, rout = replay_in_fresh_process(path)
+            if not repro:
+                print(f'HARNESS-ERROR property={prop} cross-execution replay {path} did not reproduce in a fresh process:\n{rout[-1200:]}')
+                return EXIT_HARNESS
+            print(f'VIOLATION property={prop} replay={path}')
+            print(f'  signature: {sig}')
+            print(f'  the case of run {case_.get("run")} gives different results alone and after {len(pre)} earlier execution(s) in the '
+                  f'same process (prelude in the replay file)')
+            print(f'  first differing event: {core.jdump(v["first_differing_event"])[:1000]}')
+            exit_code = EXIT_VIOLATION
+            reports.append({'sig': sig, 'known': False, 'runs': len(st.get('position_dependent_runs', [])), 'replay': path,
+                            'prelude_cases': len(pre)})
     elif unreproducible and exit_code == EXIT_OK and any(not r.get('reproducible_in_isolation', True) for r in reports):
         print(f'HARNESS-ERROR property={prop} {unreproducible} failing run(s) did not reproduce in a clean process although '
               f'the determinism self-test passed')
